@@ -352,8 +352,8 @@ class Call:
 
     def eval_new_data_offset(self, data_mask):
         if self._intermediate_data.kind == "constant":
-            # Return value passed as the argument
-            result = np.ones(len(data_mask.index)) * self.call.args[0].value
+            # Return the constant: a literal as in 'offset(3)', or a number from the caller's scope
+            result = np.ones(len(data_mask.index)) * self._intermediate_data.x
         else:
             # This works both for LazyVariable (offset(x)) and LazyCall (offset(np.log(x)))
             offset = self.call.eval(data_mask, self.env)  # returns instance of Offset
@@ -365,8 +365,8 @@ class Call:
 
     def eval_new_data_proportion(self, data_mask):
         if self._intermediate_data.trials_type == "constant":
-            # Return value passed in the second component
-            result = np.ones(len(data_mask.index)) * self.call.args[1].value
+            # Return the constant: a literal as in 'prop(y, 10)', or an integer from the caller's scope
+            result = np.ones(len(data_mask.index)) * self._intermediate_data.trials[0]
         else:
             # Extract name of the second component
             name = self.call.args[1].name
